@@ -1,49 +1,38 @@
-// ----- iterator protocol (C11): an iterator is a function value `() -> (bool, T)`; pulling it is Function::exec on the
-// CURRENT interpreter (collect::exec, Reduce::exec).  The effect of a pull flows through the abstract interpreter state,
-// so "the k-th pull" is a function of the state the (k-1)-th pull left.
-pub uninterp spec fn fun_exec_res(f: FunV, s: int) -> Result<Variable, ExecError>;
-pub uninterp spec fn fun_exec_st(f: FunV, s: int) -> int;
-/// Function::exec_with_args: runs the function in a fresh interpreter that knows only the arguments
+// ----- iterator protocol (C11): an iterator is a function value `() -> (bool, T)`; a pull is a call without arguments
+// (Function::exec_with_args(&[])).  The state of an iterator lives in cells it captured (behind Arc), so NOTHING is
+// assumed about what a pull returns: two pulls of the same iterator may differ.  The contracts of collect::exec and
+// Reduce::exec therefore quantify over every sequence of pull results; the sequence actually pulled is recorded in a ghost
+// history (`pulled`) injected into the loop, and the obligations are invariants / assertions over that history.
+/// Function::exec_with_args on arguments: runs the function in a fresh interpreter that knows only the arguments
 pub uninterp spec fn fun_call_res(f: FunV, args: Seq<Variable>) -> Result<Variable, ExecError>;
+/// the checker admitted this function value as an iterator: `() -> (bool, T)`
+pub uninterp spec fn typed_as_iterator(f: FunV) -> bool;
 impl FunV {
-    /// Function::exec on the callee (unit function.exec proves what it does with its body)
-    #[verifier::external_body]
-    pub fn exec(&self, interpreter: &mut Interpreter) -> (r: Result<Variable, ExecError>)
-        ensures r == fun_exec_res(*self, old(interpreter).st@),
-                final(interpreter).st@ == fun_exec_st(*self, old(interpreter).st@)
-    { unimplemented!() }
     #[verifier::external_body]
     pub fn exec_with_args(&self, args: &[Variable]) -> (r: Result<Variable, ExecError>)
-        ensures r == fun_call_res(*self, args@)
+        ensures
+            // a call WITH arguments is a function of the arguments (effects through captured cells are not modelled: the
+            // abstraction every unit uses); a call WITHOUT arguments - a pull - is unconstrained
+            args@.len() > 0 ==> r == fun_call_res(*self, args@),
+            // well-typedness of what an iterator returns (the checker's guarantee, assumed)
+            args@.len() == 0 && typed_as_iterator(*self) && r is Ok && r->Ok_0 is Tuple ==> r->Ok_0->Tuple_0.elems@.len() >= 2,
     { unimplemented!() }
 }
-/// state in which pull number k (0-based) of iterator `it` happens, when the first pull happens in state s
-pub open spec fn pull_st(it: FunV, s: int, k: nat) -> int decreases k {
-    if k == 0 { s } else { fun_exec_st(it, pull_st(it, s, (k - 1) as nat)) }
+/// the pull returned `(c, x)` with c != false: the sequence goes on and x is its next element
+pub open spec fn continuing(t: Tup) -> bool { !var_eq(t.elems@[0], Variable::Bool(false)) }
+/// x1..xn: the second components of the continuing pulls, in pull order
+pub open spec fn kept_elems(p: Seq<Tup>) -> Seq<Variable> decreases p.len() {
+    if p.len() == 0 { Seq::empty() } else {
+        let r = kept_elems(p.drop_last());
+        if continuing(p.last()) { r.push(p.last().elems@[1]) } else { r }
+    }
 }
-pub open spec fn pull_res(it: FunV, s: int, k: nat) -> Result<Variable, ExecError> { fun_exec_res(it, pull_st(it, s, k)) }
-/// pull k yields an element: it returned a tuple whose first component is not `false`
-pub open spec fn yields(it: FunV, s: int, k: nat) -> bool {
-    pull_res(it, s, k) is Ok && pull_res(it, s, k)->Ok_0 is Tuple
-    && !var_eq(pull_res(it, s, k)->Ok_0->Tuple_0.elems@[0], Variable::Bool(false))
-}
-/// the element pull k yields
-pub open spec fn elem(it: FunV, s: int, k: nat) -> Variable { pull_res(it, s, k)->Ok_0->Tuple_0.elems@[1] }
-/// x1..xn: the elements of the first n pulls, in order
-pub open spec fn elems(it: FunV, s: int, n: nat) -> Seq<Variable> decreases n {
-    if n == 0 { Seq::empty() } else { elems(it, s, (n - 1) as nat).push(elem(it, s, (n - 1) as nat)) }
-}
-/// every tuple an iterator returns has its two components (the checker admits only `() -> (bool, T)` here)
-pub open spec fn well_typed_iterator(it: FunV, s: int) -> bool {
-    forall|k: nat| (#[trigger] pull_res(it, s, k)) is Ok && pull_res(it, s, k)->Ok_0 is Tuple
-        ==> pull_res(it, s, k)->Ok_0->Tuple_0.elems@.len() >= 2
-}
-/// the left fold `f(...f(f(init, x1), x2)..., xn)`: accumulator after n elements (None: a call of f failed earlier)
-pub open spec fn fold_acc(it: FunV, f: FunV, init: Variable, s: int, n: nat) -> Result<Variable, ExecError> decreases n {
-    if n == 0 { Ok(init) } else {
-        match fold_acc(it, f, init, s, (n - 1) as nat) {
+/// the left fold f(...f(f(init, x1), x2)..., xn); Err as soon as a call of f fails
+pub open spec fn fold_seq(f: FunV, init: Variable, xs: Seq<Variable>) -> Result<Variable, ExecError> decreases xs.len() {
+    if xs.len() == 0 { Ok(init) } else {
+        match fold_seq(f, init, xs.drop_last()) {
             Err(e) => Err(e),
-            Ok(acc) => fun_call_res(f, seq![acc, elem(it, s, (n - 1) as nat)]),
+            Ok(acc) => fun_call_res(f, seq![acc, xs.last()]),
         }
     }
 }
